@@ -576,7 +576,8 @@ def explore_step(prog, d, tables, N, start, *, partial=False, props=None, is_rel
             k = leaf[1][0] if not leaf[1][4] else 'skip+' + leaf[1][0]
             a.count('kinds', k)
             a.maxi('max_leaf_depth', leaf[1][5])
-            if ex.sample_this_leaf() and a.n('samples') < 8:
+            nl = a.get('leaves', 0)
+            if ex.sample_this_leaf() and a.n('samples') < 12 and (nl & (nl - 1)) == 0:      # leaves 1, 2, 4, 8, ...: spread over the tree
                 m = ex.model_for(True)
                 a.add('samples', {'kind': k, 'input': bytes(m['bytes']).hex(), 'len': m['len'], 'start': start,
                                   'result': [leaf[1][0], leaf[1][1], leaf[1][2], leaf[1][3]], 'skips': leaf[1][4]})
